@@ -178,6 +178,7 @@ pub fn run_all(run: &mut Run, rng: &mut Rng, thorough: bool) {
     challenge_histories(run, rng, &env, thorough);
     // ---- TURN over TCP: `TurnClient::send` frames every message with a 2-byte length (RFC 4571)
     tcp_framing(run, rng, &env, thorough);
+    tcp_recv_buffer(run, rng, &env, thorough);
     // ---- Allocate dialogue (401 challenge, then success) against a scripted reference-crate server
     for _ in 0..(if thorough { 300 } else { 40 }) { allocate_dialogue(run, rng, &env); }
     // ---- receive side: handle_turn_packet
@@ -279,6 +280,52 @@ fn tcp_framing(run: &mut Run, rng: &mut Rng, env: &Env, thorough: bool) {
                 return;
             }
         }
+    }
+}
+
+/// `TurnClient::recv` over TCP with the RUNNER's buffer size (1500 bytes, `IceTransportRunner::run_turn_read_loop`):
+/// messages whose on-the-wire size is around the buffer size. A frame that does not fit is an error (never a
+/// slice out of range); one that fits is returned exactly. A fresh connection per case (an error leaves the
+/// stream out of sync).
+fn tcp_recv_buffer(run: &mut Run, rng: &mut Rng, env: &Env, thorough: bool) {
+    use tokio::io::AsyncWriteExt;
+    let mut sizes: Vec<(usize, bool, usize)> = vec![];
+    for dl in 1488..=1502usize { sizes.push((1500, true, dl)); }            // ChannelData: 4 + dl + pad vs 1500
+    for body in [1472usize, 1476, 1480, 1484, 1488] { sizes.push((1500, false, body)); }   // STUN: 20 + body vs 1500
+    // buffer sizes that are not a multiple of four (no caller in the tree uses one; `recv` is generic in the buffer):
+    // here the unpadded length may fit while the padded wire image does not
+    for buf in [1497usize, 1498, 1499, 1501] { for dl in 1490..=1498usize { sizes.push((buf, true, dl)); } }
+    for _ in 0..(if thorough { 40 } else { 6 }) { sizes.push((1500, rng.chance(1, 2), rng.range(0, 3000) as usize)); }
+    for (runner_buf, chan, n) in sizes {
+        #[allow(non_snake_case)] let RUNNER_BUF = runner_buf;
+        let wire: Vec<u8> = if chan {
+            let ch = rng.range(0x4000, 0x7fff) as u16;
+            let mut m = vec![(ch >> 8) as u8, ch as u8, (n >> 8) as u8, n as u8]; m.extend(rng.bytes(n)); m.extend(std::iter::repeat_n(0u8, (4 - n % 4) % 4)); m
+        } else {
+            // a Data indication whose DATA attribute fills the body: 20-byte header + 4 + value (+ padding)
+            let v = n.saturating_sub(4) / 4 * 4; let body = 4 + v;
+            let mut m = vec![0x00, 0x17, (body >> 8) as u8, body as u8, 0x21, 0x12, 0xA4, 0x42]; m.extend(rng.bytes(12));
+            m.extend_from_slice(&[0x00, 0x13, (v >> 8) as u8, v as u8]); m.extend(rng.bytes(v)); m
+        };
+        let w2 = wire.clone();
+        let res = crate::catch(std::panic::AssertUnwindSafe(|| env.rt.block_on(async {
+            let l = tokio::net::TcpListener::bind("127.0.0.1:0").await.unwrap();
+            let c = tokio::net::TcpStream::connect(l.local_addr().unwrap()).await.unwrap();
+            let (mut s, _) = l.accept().await.unwrap();
+            let client = TurnClient::verif_new_tcp(c);
+            s.write_all(&w2).await.unwrap();
+            let mut buf = vec![0u8; RUNNER_BUF];
+            match tokio::time::timeout(Duration::from_millis(1500), client.verif_recv(&mut buf)).await { Ok(Ok(k)) => { buf.truncate(k); format!("ok {}", hex(&buf)) } Ok(Err(_)) => "toobig".to_string(), Err(_) => "needmore".to_string() }
+        })));
+        let out = match res { Ok(o) => o, Err(_) => "panic".to_string() };
+        let case = format!("tcprecv {RUNNER_BUF} {}", hex(&wire));
+        run.case("tcprecv", &format!("{RUNNER_BUF} {}", hex(&wire)), &out, true);
+        // oracle from RFC 5766 §11.5: the message (without padding) or an error, never a panic, never other bytes
+        let msg_len = if chan { 4 + n } else { wire.len() };
+        if out == "panic" { run.fail(&format!("codec:turn:tcp-stream:recv:panic:{}", if chan { "channel-data" } else { "stun" }), &case, &format!("on-wire {} bytes, buffer {RUNNER_BUF}", wire.len())); }
+        else if wire.len() <= RUNNER_BUF { if out != format!("ok {}", hex(&wire[..msg_len])) { run.fail(&format!("codec:turn:tcp-stream:recv:message-that-fits-the-buffer-not-returned:{}", if chan { "channel-data" } else { "stun" }), &case, &out[..out.len().min(80)]); } }
+        else if out.starts_with("ok") { run.fail("codec:turn:tcp-stream:recv:message-larger-than-buffer-returned", &case, &out[..out.len().min(80)]); }
+        run.count(&format!("tcp_recv_buffer_{}", if wire.len() <= RUNNER_BUF { "fits" } else { "too_big" }));
     }
 }
 
